@@ -67,6 +67,9 @@ def step(draw, ops, n):
         s["fallback"] = draw(st.sampled_from((False, False, True)))
     elif op == "allseeds":
         s["order"] = draw(st.sampled_from(("id", "rev", "rot")))
+    elif op == "setcfg":
+        s["key"] = draw(st.sampled_from(("max_motifs_per_node", "attractor_candidates_limit", "minimum_simulation_budget")))
+        s["val"] = draw(st.sampled_from((1, 2, 3, 4, 50)))
     elif op == "control":
         s["target_sp"] = draw(_target(n))
         s["strategy"] = draw(st.sampled_from(("internal", "all")))
@@ -103,12 +106,14 @@ class History:
 
         self.net = net
         self.limit = limit
-        cfg = SuccessionDiagram.default_config()
+        cfg = None
         if config:
+            cfg = SuccessionDiagram.default_config()
             cfg.update(config)
         self.config = cfg
         has_free = any(t is None for t in net.tables)
         bn = to_bn(net, via="api" if (has_free or via == "api") else "bnet")
+        # (no configuration requested -> the documented default path `config=None`)
         self.sd = call(SuccessionDiagram, bn, cfg, limit=limit)
 
     def node(self, k):
@@ -191,6 +196,10 @@ class History:
                 strategy=s["strategy"],
                 max_drivers_per_succession_node=s["maxd"],
             )
+        if op == "setcfg":
+            # a user adjusting a limit of THIS diagram in place (sd.config is a public attribute)
+            sd.config[s["key"]] = s["val"]
+            return None
         if op == "summary":
             return c(sd.summary)
         raise ValueError(f"unknown op {op}")
